@@ -63,8 +63,11 @@ def regions_overlap(region1: pdm.PageXMLDoc, region2: pdm.PageXMLDoc,
     height2 = region2.coords.height + 1
     width2 = region2.coords.width + 1
 
-    v_overlap = pdm.get_vertical_overlap(region1, region2)
-    h_overlap = pdm.get_horizontal_overlap(region1, region2)
+    # compare the bounding boxes (get_horizontal_overlap would compare the baselines of two lines)
+    v_overlap = max(0, min(region1.coords.bottom, region2.coords.bottom)
+                    - max(region1.coords.top, region2.coords.top) + 1)
+    h_overlap = max(0, min(region1.coords.right, region2.coords.right)
+                    - max(region1.coords.left, region2.coords.left) + 1)
 
     if debug > 4:
         print(f"pagexml.pagexml_helper.regions_overlap\n\tregion 1: {region1.id}\n\tregion 2: {region2.id}")
